@@ -14,7 +14,6 @@ Clauses
   C18.terminates      a CPU-time step budget (ITIMER_VIRTUAL: 1 s per input string in the totality sweep, normal cost
                       ~10 us) or the runner's per-case alarm expires inside a parser call; the input is reported.
 """
-import itertools
 import random
 
 from bounded import domains as D
